@@ -277,6 +277,7 @@ Lemma E_formulas : expected_formulas = GenPbfCode.formulas. Proof. reflexivity. 
 Theorem decoder_loop_structure_matches_source :
   (* the model's nil-ing / mandatory-column / use-if-found logic is the rule-driven one *)
   (forall fi ic, nil_info fi ic = nil_info_t fi ic) /\ (forall s, dense_fixup s = dense_fixup_t s)
+  /\ (forall fd, dense_empty fd = dense_empty_t fd)
   /\ (forall p v x, extract_pre p v x = extract_pre_t p v x)
   /\ (forall f l prev index nodes, fill f l prev index nodes = fill_t ASint64 (kind_of 8 way_accum) f l prev index nodes)
   (* and rules, accumulation kinds and formulas are those of the source *)
@@ -288,7 +289,7 @@ Theorem decoder_loop_structure_matches_source :
   /\ expected_formulas = GenPbfCode.formulas.
 Proof.
   repeat split;
-    first [ exact nil_info_table | exact dense_fixup_table | exact extract_pre_table | exact fill_table
+    first [ exact nil_info_table | exact dense_fixup_table | exact dense_empty_table | exact extract_pre_table | exact fill_table
           | exact E_found_dense | exact E_found_ways | exact E_found_relations | exact E_accum_dense
           | exact E_accum_dense_info | exact E_accum_ways | exact E_accum_relations | exact E_formulas ].
 Qed.
